@@ -305,3 +305,10 @@ MUST_FAIL = ['vcanary::canary_false', 'vcanary::canary_axioms']
 
 def properties():
     return sorted(OBLIGATIONS)
+
+# Verus obligations that a COMPLETE Kani harness restates for the same real function over its whole input domain
+# (regex on the Verus item name -> harness names): check.py counts such an obligation as discharged when Verus fails it and
+# every listed harness succeeds.
+KANI_EQUIVALENT = [
+    (r'iana::[A-Za-z0-9_&%]+::is_private',['proofs::private_ranges']),
+]
